@@ -18,6 +18,7 @@ exactly 60 s).
 from __future__ import annotations
 
 import itertools
+import os
 
 from ..frontend import GOOD, FrontWorld, md5_hash
 from ..runner import Failure, Result, pmap, seeded_order
@@ -142,6 +143,74 @@ def work_login(unit):
                 fails.append(Failure(PROP, "C18.valid-login-refused", det, rp, "OK + connect", (out[:120].decode("latin-1"), connected)))
             if connected and connected != [user]:
                 fails.append(Failure(PROP, "C18.connected-as-other-user", det, rp, [user], connected))
+        finally:
+            fw.close()
+    return fails, n
+
+
+# --------------------------------------------------------------------------------------------
+# "the account's *current* password": the password file changes while the server runs
+PW_REWRITES = {
+    "changed": lambda old: md5_hash("new-" + old),  # new password = "new-" + old
+    "disabled-XXX": lambda old: "XXX",
+    "disabled-bang": lambda old: "!" + md5_hash(old),
+    "removed": lambda old: None,
+    "same": lambda old: md5_hash(old),  # rewritten with the same hash (mtime advances only)
+}
+
+
+def work_pwchange(unit):
+    """(protocol, what happened before the rewrite, kind of rewrite): afterwards the old password must be refused
+    (unless the hash is unchanged) and the new one accepted, each on a fresh connection."""
+    import asimap.auth
+
+    fails, n = [], 0
+    for proto, before, kind in unit:
+        fw = FrontWorld(accounts={"alice": None, "bob": None})
+        try:
+            old = GOOD["alice"]
+            new = "new-" + old
+
+            def attempt(pw):
+                if proto == "imap":
+                    s = fw.imap_client()
+                    out = s.line(b'l1 LOGIN "alice" "%s"' % pw.encode())
+                    return b"l1 OK" in out, out
+                s = fw.pop3_client()
+                s.line(b"USER alice")
+                out = s.line(b"PASS " + pw.encode())
+                return out.startswith(b"+OK"), out
+
+            if before == "good-login":
+                attempt(old)
+            elif before == "bad-login":
+                attempt("wrong-" + old)
+            elif before == "bob-login":
+                fw.imap_client().line(b'l0 LOGIN "bob" "%s"' % GOOD["bob"].encode())
+            h = PW_REWRITES[kind](old)
+            pwf = asimap.auth.PW_FILE_LOCATION
+            with open(pwf, "w") as f:
+                if h is not None:
+                    f.write(f"alice:{h}:mail-alice\n")
+                f.write(f"bob:{md5_hash(GOOD['bob'])}:mail-bob\n")
+            st = os.stat(pwf)
+            os.utime(pwf, (st.st_atime + 5, st.st_mtime + 5))  # the rewrite is later than the server's last look
+            fw.connect_requests.clear()
+            det = {"proto": proto, "before": before, "rewrite": kind}
+            rp = {"driver": "c18-pwchange", "proto": proto, "before": before, "kind": kind}
+            ok_old, out_old = attempt(old)
+            n += 1
+            if kind == "same":
+                if not ok_old:
+                    fails.append(Failure(PROP, "C18.valid-login-refused", det, rp, "OK", out_old[:100].decode("latin-1")))
+            elif ok_old or fw.connect_requests:
+                fails.append(Failure(PROP, "C18.old-password-still-authenticates", det, rp, "refused", out_old[:100].decode("latin-1")))
+            if kind == "changed":
+                fw.connect_requests.clear()
+                ok_new, out_new = attempt(new)
+                n += 1
+                if not ok_new:
+                    fails.append(Failure(PROP, "C18.current-password-refused", det, rp, "OK", out_new[:100].decode("latin-1")))
         finally:
             fw.close()
     return fails, n
@@ -382,18 +451,25 @@ def run(tier, seed, jobs) -> Result:
     for f, n in pmap(work_login, [logins[i : i + 12] for i in range(0, len(logins), 12)], jobs):
         res.failures.extend(f)
         nl += n
+    pwc = [(p, b, k) for p in ("imap", "pop3") for b in ("none", "good-login", "bad-login", "bob-login") for k in PW_REWRITES]
+    npw = 0
+    for f, n in pmap(work_pwchange, [pwc[i : i + 5] for i in range(0, len(pwc), 5)], jobs):
+        res.failures.extend(f)
+        npw += n
     th = throttle_bfs(tier, jobs, seed)
     res.failures.extend(th["fails"])
     res.coverage = {
         "states": th["states"], "transitions": th["transitions"], "traces_validated_against_impl": th["transitions"],
         "samples": th["samples"] or [[["imap", "alice", "10.1.1.1", False]]],
         "throttle_levels": th["levels"], "throttle_depth": th["depth"], "throttle_outcomes": th["outcomes"],
-        "gate_cells": ng, "login_cells": nl, "exhaustive": True,
+        "gate_cells": ng, "login_cells": nl, "password_change_cells": npw, "exhaustive": True,
         "explanation": "throttle: explicit-state BFS, every transition is a real LOGIN / USER+PASS through the front-end (or a clock advance); "
                        "states = the implementation's failure tables relative to now + the set of reference states still consistent; "
                        "gate/login matrices are exhaustive enumerations of their cells",
     }
-    res.assumptions = ["no TLS, no real sockets, no real subprocess: requesting the user-process connection is the observation",
+    res.assumptions = ["'current password': the password file is rewritten (changed / disabled / account removed / same hash) after none, a good, a bad or "
+                       "another user's login; the old password must then be refused and the new one accepted on fresh connections",
+                       "no TLS, no real sockets, no real subprocess: requesting the user-process connection is the observation",
                        "accounts use the PBKDF2-SHA1 hasher with one iteration (real code path, cheap), an unusable '!' hash, an empty and a malformed hash",
                        "at exactly 60 s since the last failure either answer is accepted (the reference then follows the implementation's branch)",
                        "a throttled IMAP attempt takes 10 virtual seconds (the server's deliberate delay)"]
@@ -406,6 +482,8 @@ def replay(rec):
         return work_gate([(rp["proto"], rp["state"], rp["cmd"])])[0]
     if rp["driver"] == "c18-login":
         return work_login([(rp["proto"], rp["user"], rp["var"], rp["enc"])])[0]
+    if rp["driver"] == "c18-pwchange":
+        return work_pwchange([(rp["proto"], rp["before"], rp["kind"])])[0]
     from ..seams import EPOCH
 
     fw = FrontWorld()
